@@ -140,8 +140,12 @@ func (v *Vue) evalSlot(ctx VueContext, node *html.Node, slotScope *SlotScope) ([
 	if inheritedSlotScopeData, ok := ctx.stack.EnvMap()["__slotScope__"]; ok {
 		if inheritedSlotScope, ok := inheritedSlotScopeData.(*SlotScope); ok {
 			if slotContent := inheritedSlotScope.GetSlot(slotName); slotContent != nil {
-				// Use the inherited slot content directly (already parsed as DOM nodes)
-				return slotContent.Nodes, nil
+				// The inherited content is template code of the page: evaluate it (which also
+				// copies it). The reserved key is shadowed meanwhile so that a <slot> inside
+				// the content cannot select the same content again.
+				ctx.stack.Push(map[string]any{"__slotScope__": nil})
+				defer ctx.stack.Pop()
+				return v.evaluate(ctx, slotContent.Nodes, 0)
 			}
 		}
 	}
